@@ -254,8 +254,8 @@ DIMS = [
     ("downsample", [None, 5]),
     ("motion_filter", [None, (0.5, 30.0), (100.0, 40.0), (2.5, 170.0)]),
     ("t_max_diff", [0.01, 0.3]),
-    ("t_offset", [0.0, 0.125, 1.0]),
-    ("crop", [None, (1.5, 4.0)]),
+    ("t_offset", [0.0, 0.125, 1.0, -0.26]),
+    ("crop", [None, (1.5, 4.0), (2.0, None), (None, 3.0)]),
     ("project", [None, "xy", "xz", "yz"]),
     ("unit", [None, "compatible", "incompatible"]),
     ("fmt", ["tum", "kitti", "euroc"]),
@@ -415,8 +415,8 @@ def lattice_points(ctx):
              ("from_ref", [False, True]), ("align", ["none", "as"]),
              ("downsample", [None, 5]),
              ("motion_filter", [None, (0.5, 30.0), (2.5, 170.0)]),
-             ("t_max_diff", [0.01, 0.3]), ("t_offset", [0.0, 0.125, 1.0]),
-             ("crop", [None, (1.5, 4.0)]), ("project", [None, "xz"]),
+             ("t_max_diff", [0.01, 0.3]), ("t_offset", [0.0, 0.125, 1.0, -0.26]),
+             ("crop", [None, (1.5, 4.0), (2.0, None), (None, 3.0)]), ("project", [None, "xz"]),
              ("unit", [None, "incompatible"]), ("fmt", ["tum", "euroc"])]
         for p in lattice.product(b):
             pts.append(dict({"n_to_align": -1}, **p))
@@ -429,6 +429,18 @@ def lattice_points(ctx):
         base = {"n_to_align": -1, "motion_filter": None, "t_max_diff": 0.01,
                 "t_offset": 0.0, "unit": None}
         for p in lattice.product(a):
+            pts.append(dict(base, **p))
+        # one-sided time ranges and a negative offset
+        d = [("crop", [(2.0, None), (None, 3.0), (1.5, 4.0)]),
+             ("t_offset", [0.0, -0.26, 0.125, 1.0]),
+             ("t_max_diff", [0.01, 0.3]),
+             ("relation", ["full", "trans_part"]),
+             ("delta", [("f", 1), ("m", 1.5)]), ("all_pairs", [False, True]),
+             ("align", ["none", "as"])]
+        base = {"from_ref": False, "n_to_align": -1, "downsample": None,
+                "motion_filter": None, "project": None, "unit": None,
+                "fmt": "tum"}
+        for p in lattice.product(d):
             pts.append(dict(base, **p))
         c = [("relation", DIMS[0][1]), ("delta", DIMS[1][1]),
              ("all_pairs", [False, True]), ("align", DIMS[4][1]),
